@@ -30,6 +30,12 @@ CLAIMS = {
          "Every operation through ended handles is tried at every state of the bounded model; the real result classes and all other readers' reads are compared with the promise. The recorded defect (late writes accepted) is modelled as the named deviation 'latewrite'.", "6 C13"),
  "C14": ("TLC invariant Reclaimed on FsDb.tla + replay of behaviours ending in quiescence with a walk of the storage roots",
          "At every quiescent state (no open transaction, pool drained, one collector pass, or clean reopen) the real roots must hold exactly one content file per readable key.", "6 C14"),
+ "C18": ("TLC invariants on VersionList.tla (binary search transcribed branch for branch = declarative last-below; collect rule; mirror = list) + replay of every emitted behaviour on the real core.Transaction",
+         "All behaviours of the list state machine (push/pop-front/pop-back/collect) to the stated depth, all 4096 increasing lists over a 12-element domain with all 14 probes, and simulated lists of hundreds to thousands of versions are executed on the real per-key store; results, list content, array mirror, Latest and LastBefore are compared.", "6 C18"),
+ "C19": ("layout function in Record.tla, TLC-generated golden vectors and byte strings replayed through the real version-record repository; fixture directory of the pinned revision",
+         "Golden records over boundary values are encoded by the real repository and compared byte for byte with the layout function, decoded back, and the layout bytes decode to the same values; byte strings of length 0..42 must decode without panic and be rejected iff shorter than 40; a database directory written by the pinned revision must load to the recorded state. Transcription plus generated vectors: the weakest use of the technique, claimed at that strength.", "6 C19"),
+ "C20": ("Config.tla enumerates every configuration case with at most 2 (quick) / 3 (thorough) settings away from absent; each is executed through config.ParseConfig and Storage.Valid on a real YAML file and process environment",
+         "Per setting: absent / file / env / both / empty env (alone, over file) / malformed file / malformed env (alone, over file) / values that matter to Valid; TLC checks the layering rule on the case function and emits the expected outcome per case.", "6 C20"),
 }
 
 NOT_YET = {
